@@ -110,7 +110,9 @@ pub fn get_rules() -> Vec<Arc<Rule>> {
 pub fn clear_rules() {
     CURRENT_RULES.lock().unwrap().clear();
     BREAKER_RULES.write().unwrap().clear();
-    BREAKER_MAP.write().unwrap().clear();
+    // the replaced breakers are dropped (announcing it to the listeners) after the lock is released
+    let old_breaker_map = std::mem::take(&mut *BREAKER_MAP.write().unwrap());
+    drop(old_breaker_map);
 }
 
 /// `append_rule` adds one rule to the rules already loaded for its resource,
@@ -212,12 +214,9 @@ pub fn load_rules(rules: Vec<Arc<Rule>>) -> bool {
 
     // build global_breaker_map according to valid rules
     for (res, rules) in valid_rules_map.iter() {
-        let mut placeholder = Vec::new();
-        let new_cbs_of_res = build_resource_circuit_breaker(
-            res,
-            rules,
-            global_breaker_map.get_mut(res).unwrap_or(&mut placeholder),
-        );
+        // looked up in a copy of the list: the breakers themselves stay in the map until it is replaced
+        let mut old_cbs_of_res = global_breaker_map.get(res).cloned().unwrap_or_default();
+        let new_cbs_of_res = build_resource_circuit_breaker(res, rules, &mut old_cbs_of_res);
         if !new_cbs_of_res.is_empty() {
             valid_breaker_map.insert(res.clone(), new_cbs_of_res);
         }
@@ -233,10 +232,12 @@ pub fn load_rules(rules: Vec<Arc<Rule>>) -> bool {
     }
 
     *BREAKER_RULES.write().unwrap() = valid_rules_map;
-    *global_breaker_map = valid_breaker_map;
+    let old_breaker_map = std::mem::replace(&mut *global_breaker_map, valid_breaker_map);
     *global_rule_map = rule_map;
     drop(global_rule_map);
     drop(global_breaker_map);
+    // the replaced breakers are dropped (announcing it to the listeners) after the locks are released
+    drop(old_breaker_map);
     logging::debug!(
         "[CircuitBreakerTrait load_rules] Time statistic(ns) for updating flow rule, time cost {}",
         utils::curr_time_nanos() - start
@@ -254,12 +255,15 @@ pub fn load_rules_of_resource(res: &String, rules: Vec<Arc<Rule>>) -> Result<boo
         return Err(Error::msg("empty resource"));
     }
     let rules: HashSet<_> = rules.into_iter().collect();
+    // declared before the guards: the replaced breakers are dropped (announcing it to the
+    // listeners) after the locks are released
+    let mut _old_res_cbs: Option<Vec<Arc<dyn CircuitBreakerTrait>>> = None;
     let mut global_rule_map = CURRENT_RULES.lock().unwrap();
     let mut global_breaker_map = BREAKER_MAP.write().unwrap();
     // clear resource rules
     if rules.is_empty() {
         global_rule_map.remove(res);
-        global_breaker_map.remove(res);
+        _old_res_cbs = global_breaker_map.remove(res);
         BREAKER_RULES.write().unwrap().remove(res);
         logging::info!(
             "[CircuitBreakerTrait] clear resource level rules, resource {}",
@@ -286,14 +290,15 @@ pub fn load_rules_of_resource(res: &String, rules: Vec<Arc<Rule>>) -> Result<boo
     }
     // the `res` related rules changes, have to update
     let start = utils::curr_time_nanos();
-    let mut placeholder = Vec::new();
-    let old_res_tcs = global_breaker_map.get_mut(res).unwrap_or(&mut placeholder);
+    let old_res_tcs = global_breaker_map.remove(res).unwrap_or_default();
 
     let valid_res_rules_string = format!("{:?}", &valid_res_rules);
-    let new_res_tcs = build_resource_circuit_breaker(res, &valid_res_rules, old_res_tcs);
+    // looked up in a copy of the list: the breakers themselves are kept until the locks are released
+    let new_res_tcs =
+        build_resource_circuit_breaker(res, &valid_res_rules, &mut old_res_tcs.clone());
+    _old_res_cbs = Some(old_res_tcs);
 
     if new_res_tcs.is_empty() {
-        global_breaker_map.remove(res);
         BREAKER_RULES.write().unwrap().remove(res);
     } else {
         global_breaker_map.insert(res.clone(), new_res_tcs);
@@ -379,7 +384,9 @@ pub fn remove_circuit_breaker_generator(s: &BreakerStrategy) -> Result<()> {
 pub fn clear_rules_of_resource(res: &String) {
     BREAKER_RULES.write().unwrap().remove(res);
     CURRENT_RULES.lock().unwrap().remove(res);
-    BREAKER_MAP.write().unwrap().remove(res);
+    // the removed breakers are dropped (announcing it to the listeners) after the lock is released
+    let old_res_cbs = BREAKER_MAP.write().unwrap().remove(res);
+    drop(old_res_cbs);
 }
 
 pub fn calculate_reuse_index_for(
